@@ -252,6 +252,31 @@ def _coverage(repo, rep):
                 n.args and ("getattr(self" in src(n.args[0]) or
                             src(n.args[0]) == "v"):
             lossy.append((n.lineno, src(n)))
+    # everything a digest function takes the trouble to read is used: a
+    # value bound in it (an option read into a local, the value half of an
+    # items() pair) that is never read again has dropped out of the key
+    for df in (pdig, repo.func(BT + "digest")):
+        bound = {}
+        for n in ast.walk(df.node):
+            tg = []
+            if isinstance(n, ast.Assign):
+                tg = n.targets
+            elif isinstance(n, (ast.For, ast.comprehension)):
+                tg = [n.target]
+            for t in tg:
+                for x in ast.walk(t):
+                    if isinstance(x, ast.Name) and isinstance(
+                            x.ctx, ast.Store):
+                        bound.setdefault(x.id, x.lineno)
+        loads = {x.id for x in ast.walk(df.node) if isinstance(x, ast.Name)
+                 and isinstance(x.ctx, ast.Load)}
+        dead = sorted(k for k in bound if k not in loads and k != "_")
+        rep.check(not dead, "R15.1", df.qualname, "every value the digest "
+                  "binds (options read into locals, both halves of an "
+                  "items() pair) is used: %d bindings" % len(bound),
+                  construct="digest-binding-unused", where=L.where(
+                      df, bound[dead[0]]) if dead else L.where(df),
+                  detail="never read: %s" % dead)
     rep.check(not lossy, "R15.1", pdig.qualname,
               "option values are hashed without a lossy coercion (None, "
               "False and an empty collection stay distinct -- the compile "
